@@ -36,7 +36,7 @@ def witness_sources():
         'range-bound-unchecked': main('    for v5 in (range true 3) {\n        (println v5)\n    }'),
         'no-return-path-check': main('    (println (f3 1))', F1 + 'fn f3(v4: int) -> int {\n    if (> v4 5) {\n        return 1\n    }\n}\nshadow f3 { assert true }\n'),
         'block-scope-not-popped': main('    if true {\n        let v5: int = 4\n        (println v5)\n    }\n    (println v5)'),
-        'function-scope-not-popped': main('    (println v6)', F1 + 'fn f3() -> int {\n    let v6: int = 3\n    return v6\n}\nshadow f3 { assert true }\n'),
+        'function-scope-not-popped': main('    (println (- 5 v4))', F1 + 'fn f3(v4: bool) -> int {\n    return 3\n}\nshadow f3 { assert true }\n'),
         # outside the fragment of Lang/Ast.v (structs, unions, match, opaque types): programs for the remaining triaged diagnostic sites
         'struct-literal-unknown-field': main('    let p: Point = Point { x: 1, z: 2 }\n    (println p.x)', 'struct Point {\n    x: int,\n    y: int\n}\n'),
         'struct-literal-field-type-unchecked': main('    let p: Point = Point { x: 1, y: true }\n    (println p.y)', 'struct Point {\n    x: int,\n    y: int\n}\n'),
@@ -83,8 +83,9 @@ def run(ck):
                 ck.fail('c05:' + k, 'ill-formed program is not refused: ' + json.dumps(bad), dict(source=src, rule_violated=k, tools=brief(obs)))
         # ---- 2. generated programs x catalogue
         cfg = c02.stream_cfg(ck)
-        nprog = 40 if ck.thorough else 10
-        per_key = 24 if ck.thorough else 6
+        nprog = 40 if ck.thorough else 8
+        per_key = 24 if ck.thorough else 5
+        cap = 90
         progs = []
         for i in range(nprog):
             g = progen.Gen(random.Random(ck.seed * 6151 + i), cfg)
@@ -127,7 +128,10 @@ def run(ck):
                 ck.rng.shuffle(qs)
                 torun += qs[:per_key]        # open finding: a sample keeps replaying it, the rest is skipped
             else:
-                torun += qs                  # accepted for a reason that is NOT a recorded finding: every one is run
+                # let through by the type checker for a reason that is NOT a recorded C05 finding: the tools must still refuse it
+                # (later phase) -- every one is run (quick tier: at most `cap` per unchecked place, drawn at random)
+                ck.rng.shuffle(qs)
+                torun += qs if ck.thorough else qs[:cap]
         def onem(t):
             j, q = t
             return q, T.run_three(b, wd, 'm%d' % j, q['src'])
